@@ -8,6 +8,7 @@ import FxVerif.Model.C08Cache
 import FxVerif.Proofs.C08Cache
 import FxVerif.Gen.C04
 import FxVerif.Gen.C08
+import FxVerif.Gen.C08b
 /-!
 # C08 — coin ↔ ERC-20 conversion conserves value and keeps the token-pair books balanced
 
@@ -343,6 +344,126 @@ theorem toggle_frame (i i' : Idx) (d : Nat) (h : stepIdx i (.toggle d) = .ok i')
     · cases h
     · cases h; exact ⟨rfl, rfl, rfl, rfl⟩
 
+/-! ### translator tie of the unified model (Model/C08U.lean) -/
+
+theorem call_send_coin (d : Nat) (s t : Addr) (n : Nat) :
+    Prim.call (.send (coinAsset d) s t n) = if isModule s then .sendModToAcc else .sendAccToMod := by
+  unfold coinAsset; split <;> rfl
+
+theorem call_mint_coin (d : Nat) (b t : Addr) (n : Nat) : Prim.call (.mint (coinAsset d) b t n) = .mintCoins := by
+  unfold coinAsset; split <;> rfl
+
+theorem call_burn_coin (d : Nat) (b t : Addr) (n : Nat) : Prim.call (.burn (coinAsset d) b t n) = .burnCoins := by
+  unfold coinAsset; split <;> rfl
+
+open FxVerif.Gen.C04 in
+/-- the flows of the unified model make exactly the keeper calls of the Go conversion functions, for every
+denomination, contract, sender, receiver and amount (call sequences regenerated from the AST) -/
+theorem unified_flows_match_code :
+    (∀ d ct s r n, calls (convertCoinU .moduleOwned d ct (.user s) r n) = convertCoinNativeCoin_other) ∧
+    (∀ d ct s r n, calls (convertCoinU .fx d ct (.user s) r n) = convertCoinNativeCoin_fx) ∧
+    (∀ d ct s r n, calls (convertCoinU .externalOwned d ct (.user s) r n) = convertCoinNativeERC20) ∧
+    (∀ d ct s r n, calls (convertERC20U .moduleOwned d ct s r n) = convertERC20NativeCoin_other) ∧
+    (∀ d ct s r n, calls (convertERC20U .fx d ct s r n) = convertERC20NativeCoin_fx) ∧
+    (∀ d ct s r n, calls (convertERC20U .externalOwned d ct s r n) = convertERC20NativeToken) := by
+  refine ⟨?_, ?_, ?_, ?_, ?_, ?_⟩ <;> intros <;>
+    simp [calls, convertCoinU, convertERC20U, call_send_coin, call_mint_coin, call_burn_coin, Prim.call, isModule, E,
+      convertCoinNativeCoin_other, convertCoinNativeCoin_fx, convertCoinNativeERC20, convertERC20NativeCoin_other,
+      convertERC20NativeCoin_fx, convertERC20NativeToken]
+
+/-- the unified flows restricted to a base denomination `g < 100` with contract number `g` are the group-level flows of
+`Model/Flows.lean` (so every statement about those transfers to the unified model) -/
+theorem unified_flows_extend_group_flows (k : Kind) (g : Nat) (hg : g < 100) (s r : Addr) (n : Nat) :
+    convertCoinU k g g s r n = convertCoin k g s r n ∧ convertERC20U k g g s r n = convertERC20 k g s r n := by
+  have : coinAsset g = .base g := by simp [coinAsset, hg]
+  cases k <;> simp [convertCoinU, convertERC20U, convertCoin, convertERC20, this]
+
+def toD : Call → FxVerif.Gen.C08b.DCall
+  | .sendAccToMod => .sendAccToMod | .sendModToAcc => .sendModToAcc | .mintCoins => .mintCoins | .burnCoins => .burnCoins
+  | .erc20Mint => .erc20Mint | .erc20Burn => .erc20Burn | .erc20Transfer => .erc20Transfer
+
+open FxVerif.Gen.C08b in
+/-- **`MsgConvertDenom` as modelled is `MsgConvertDenom` as written**: the handler's call sequence (conversion, then the
+receiver leg only when sender ≠ receiver), `ConvertDenomToTarget` (take the coin, convert, pay the target), the
+three-way choice of `convertDenomToContractOwner` and, branch by branch, the mint / burn calls of `convertNativeAlias`,
+`convertNativeCoin`, `convertNativeERC20` — all regenerated from the AST — against `convertDenomU` / `convertDenomMid`
+for every base, alias list, source, target and amount -/
+theorem convertDenom_flows_match_code :
+    convertDenom_otherReceiver = [[.toTarget, .sendAccToMod, .sendModToAcc]] ∧
+    convertDenom_sameReceiver = [[.toTarget]] ∧
+    convertDenomToTarget_same = [[]] ∧
+    convertDenomToTarget_convert = [[.sendAccToMod, .toContractOwner, .sendModToAcc]] ∧
+    toContractOwner_converted = [[.nativeAlias]] ∧ toContractOwner_nativeCoin = [[.nativeCoin]] ∧
+    toContractOwner_nativeERC20 = [[.nativeERC20]] ∧
+    (∀ base aliases src dst n, [(calls (convertDenomMid .moduleOwned base aliases src dst n)).map toD] =
+      if src = base then nativeCoin_srcIsBase else if dst = base then nativeCoin_dstIsBase else nativeCoin_aliasToAlias) ∧
+    (∀ base aliases src dst n, [(calls (convertDenomMid .externalOwned base aliases src dst n)).map toD] =
+      if src = base then nativeERC20_srcIsBase else if dst = base then nativeERC20_dstIsBase else nativeERC20_aliasToAlias) ∧
+    (∀ base aliases src dst n, [(calls (convertDenomMid .fx base aliases src dst n)).map toD] =
+      if src = base ∧ aliases.contains dst then nativeAlias_baseToAlias
+      else if dst = base ∧ aliases.contains src then nativeAlias_aliasToBase else nativeAlias_aliasToAlias) ∧
+    (∀ k base aliases src dst u r n, (calls (convertDenomU k base aliases src dst u r n)).map toD =
+      [.sendAccToMod] ++ (calls (convertDenomMid k base aliases src dst n)).map toD ++ [.sendModToAcc] ++
+      (if u = r then [] else [.sendAccToMod, .sendModToAcc])) := by
+  refine ⟨by decide, by decide, by decide, by decide, by decide, by decide, by decide, ?_, ?_, ?_, ?_⟩
+  · intro base aliases src dst n
+    simp only [convertDenomMid]
+    split
+    · simp [calls, call_burn_coin, toD, nativeCoin_srcIsBase]
+    · split <;> simp [calls, call_mint_coin, toD, nativeCoin_dstIsBase, nativeCoin_aliasToAlias]
+  · intro base aliases src dst n
+    simp only [convertDenomMid]
+    split
+    · simp [calls, call_mint_coin, toD, nativeERC20_srcIsBase]
+    · split <;> simp [calls, call_burn_coin, toD, nativeERC20_dstIsBase, nativeERC20_aliasToAlias]
+  · intro base aliases src dst n
+    simp only [convertDenomMid]
+    split
+    · simp [calls, call_mint_coin, toD, nativeAlias_baseToAlias]
+    · split <;> simp [calls, call_mint_coin, call_burn_coin, toD, nativeAlias_aliasToBase, nativeAlias_aliasToAlias]
+  · intro k base aliases src dst u r n
+    by_cases hur : u = r <;> simp [convertDenomU, calls, call_send_coin, isModule, E, toD, hur]
+
+open FxVerif.Gen.C08b in
+/-- **the handlers as modelled are the handlers as written**: `MintingEnabled` checks, in this order, the global
+switch, the pair's existence, the pair's `Enabled` flag (then the blocked-address and send-enabled checks of the bank);
+`ConvertCoin` looks the pair up by the message's coin denomination and `ConvertERC20` by the message's contract address
+— nothing else, in particular no alias resolution —, both remove a pair whose contract holds no code and succeed, and
+both dispatch on ownership to the function that `unified_flows_match_code` ties to the model, passing the message's own
+coin / amount -/
+theorem handlers_match_code :
+    mintingEnabled_guards.map Prod.snd =
+      ["ErrERC20Disabled", "ErrTokenPairNotFound", "ErrERC20TokenPairDisabled", "ErrUnauthorized", "ErrSendDisabled"] ∧
+    (mintingEnabled_guards.map Prod.fst).take 3 = ["!k.GetEnableErc20(ctx)", "!found", "!pair.Enabled"] ∧
+    convertCoin_lookup = "msg.Coin.Denom" ∧ convertERC20_lookup = "msg.ContractAddress" ∧
+    convertCoin_removesDeadPair = true ∧ convertERC20_removesDeadPair = true ∧
+    convertCoin_dispatch =
+      [("pair.IsNativeCoin()", "ConvertCoinNativeCoin", "ctx, pair, sender, receiver, msg.Coin"),
+       ("pair.IsNativeERC20()", "ConvertCoinNativeERC20", "ctx, pair, sender, receiver, msg.Coin")] ∧
+    convertERC20_dispatch =
+      [("pair.IsNativeCoin()", "ConvertERC20NativeCoin", "ctx, pair, sender, receiver, msg.Amount"),
+       ("pair.IsNativeERC20()", "ConvertERC20NativeToken", "ctx, pair, sender, receiver, msg.Amount")] := by
+  decide
+
+/-- the model's `MintingEnabled` takes the same decisions in the same order -/
+theorem mintingEnabled_order (s : UState) (o : Option Pair) :
+    (s.enable = false → mintingEnabled s o = .error .disabled) ∧
+    (s.enable = true → o = none → mintingEnabled s o = .error .notFound) ∧
+    (∀ p, s.enable = true → o = some p → p.enabled = false → mintingEnabled s o = .error .disabled) ∧
+    (∀ p, s.enable = true → o = some p → p.enabled = true → mintingEnabled s o = .ok p) := by
+  refine ⟨?_, ?_, ?_, ?_⟩ <;> intros <;> simp_all [mintingEnabled]
+
+open FxVerif.Gen.C08b in
+/-- **which precompile conversions are keeper-level nested EVM executions** (the ones `mixed_tx_coherent` needs its
+hypothesis for): exactly `bridgeCall` (`EvmToBaseCoin`); `crossChain` and `increaseBridgeFee` convert through the
+running EVM (`handlerERC20Token`, which itself makes no keeper-level EVM call).  A new nested path changes this table. -/
+theorem nested_conversion_paths_match_code :
+    precompileTokenConversions.filter (fun p => p.2.1 = "keeper") = [("BridgeCallMethod", "keeper", "EvmToBaseCoin")] ∧
+    (precompileTokenConversions.filter (fun p => p.2.2 = "handlerERC20Token")).map Prod.fst =
+      ["CrossChainMethod", "IncreaseBridgeFeeMethod"] ∧
+    handlerERC20Token_usesKeeperLevelEVM = false := by
+  decide
+
 /-! ### I_index, inductively (unified model: every message of the erc20 module, any order, any arguments) -/
 
 open FxVerif.Proofs.C08 in
@@ -417,6 +538,164 @@ theorem module_books_preserved_all_messages (s : UState) (hi : IdxInv s.idx) (hd
     (bookM p.denom p.contract (decide (p.denom = 0))).val (runU s ops).L =
       (bookM p.denom p.contract (decide (p.denom = 0))).val s.L :=
   bookM_runU s hi hdead ops hf id p hp hext
+
+/-! ### convert_exact and I_sum for the unified model -/
+
+section Exact
+open FxVerif.Proofs.C08
+
+/-- what a successful `stepU` of a conversion message did, in terms of the pair it found and the flow it ran -/
+theorem stepU_convertCoin_ok (s s' : UState) (d u r n : Nat) (h : stepU s (.convertCoin d u r n) = .ok s') :
+    ∃ p, pairByDenom s.idx d = some p ∧
+      ((s.dead.contains p.contract = true ∧ s' = { s with idx := removePair s.idx p }) ∨
+       (s.dead.contains p.contract = false ∧ ∃ L', runFlow (convertCoinU p.kind d p.contract (.user u) (.user r) n) s.L = .ok L' ∧
+          s' = { s with L := L' })) := by
+  simp only [stepU] at h
+  split at h; · cases h
+  rename_i p hme
+  refine ⟨p, mintingEnabled_ok hme, ?_⟩
+  split at h
+  · rename_i hd; cases h; exact Or.inl ⟨hd, rfl⟩
+  · rename_i hd
+    simp only [UState.withLedger] at h
+    split at h
+    · rename_i L' hr; cases h; exact Or.inr ⟨by simpa using hd, L', hr, rfl⟩
+    · cases h
+
+theorem stepU_convertERC20_ok (s s' : UState) (ct u r n : Nat) (h : stepU s (.convertERC20 ct u r n) = .ok s') :
+    ∃ p, pairByErc s.idx ct = some p ∧
+      ((s.dead.contains p.contract = true ∧ s' = { s with idx := removePair s.idx p }) ∨
+       (s.dead.contains p.contract = false ∧
+          ∃ L', runFlow (convertERC20U p.kind p.denom p.contract (.user u) (.user r) n) s.L = .ok L' ∧ s' = { s with L := L' })) := by
+  simp only [stepU] at h
+  split at h; · cases h
+  rename_i p hme
+  refine ⟨p, mintingEnabled_ok hme, ?_⟩
+  split at h
+  · rename_i hd; cases h; exact Or.inl ⟨hd, rfl⟩
+  · rename_i hd
+    simp only [UState.withLedger] at h
+    split at h
+    · rename_i L' hr; cases h; exact Or.inr ⟨by simpa using hd, L', hr, rfl⟩
+    · cases h
+
+/-- **convert_exact, `MsgConvertCoin` (unified)**: a successful message on a live pair changes, among all accounts
+other than the erc20 module account and the WFX contract and among ALL denominations and ALL contracts, exactly: the
+sender's balance of the message's coin denomination (−n) and the receiver's balance of the ERC-20 of the pair
+registered for that denomination (+n); the indexes are untouched -/
+theorem convertCoin_exact_unified (s s' : UState) (d u r n : Nat) (h : stepU s (.convertCoin d u r n) = .ok s')
+    (hlive : ∀ p, pairByDenom s.idx d = some p → s.dead.contains p.contract = false) :
+    ∃ p, pairByDenom s.idx d = some p ∧ s'.idx = s.idx ∧
+      ∀ (a : Asset) (x : Addr), x ≠ .erc20Mod → x ≠ .wfx →
+        (s'.L.bal a x : Int) = s.L.bal a x + (if a = .erc p.contract ∧ x = .user r then (n : Int) else 0)
+          - (if a = coinAsset d ∧ x = .user u then (n : Int) else 0) := by
+  obtain ⟨p, hp, hcase⟩ := stepU_convertCoin_ok s s' d u r n h
+  rcases hcase with ⟨hd, _⟩ | ⟨_, L', hr, rfl⟩
+  · rw [hlive p hp] at hd; cases hd
+  · refine ⟨p, hp, rfl, fun a x h1 h2 => ?_⟩
+    have := runFlow_obs (balObs_sound a x) _ _ _ hr
+    simp only [balObs] at this
+    rw [this]
+    have h1' : ¬ Addr.erc20Mod = x := fun e => h1 e.symm
+    have h2' : ¬ Addr.wfx = x := fun e => h2 e.symm
+    have hne : ∀ ct, ¬ coinAsset d = Asset.erc ct := fun ct => coinAsset_ne_erc d ct
+    have hne' : ∀ ct, ¬ Asset.erc ct = coinAsset d := fun ct => erc_ne_coinAsset d ct
+    by_cases ha1 : a = .erc p.contract <;> by_cases ha2 : a = coinAsset d <;> by_cases hx1 : x = .user r <;>
+      by_cases hx2 : x = .user u <;> cases p.kind <;>
+      simp [convertCoinU, Obs.flowDelta, balObs, E, ha1, ha2, hx1, hx2, h1, h2, h1', h2', hne, hne', eq_comm] <;>
+      (try simp_all) <;> (try omega)
+
+/-- **convert_exact, `MsgConvertERC20` (unified)** -/
+theorem convertERC20_exact_unified (s s' : UState) (ct u r n : Nat) (h : stepU s (.convertERC20 ct u r n) = .ok s')
+    (hlive : ∀ p, pairByErc s.idx ct = some p → s.dead.contains p.contract = false) :
+    ∃ p, pairByErc s.idx ct = some p ∧ s'.idx = s.idx ∧
+      ∀ (a : Asset) (x : Addr), x ≠ .erc20Mod → x ≠ .wfx →
+        (s'.L.bal a x : Int) = s.L.bal a x + (if a = coinAsset p.denom ∧ x = .user r then (n : Int) else 0)
+          - (if a = .erc p.contract ∧ x = .user u then (n : Int) else 0) := by
+  obtain ⟨p, hp, hcase⟩ := stepU_convertERC20_ok s s' ct u r n h
+  rcases hcase with ⟨hd, _⟩ | ⟨_, L', hr, rfl⟩
+  · rw [hlive p hp] at hd; cases hd
+  · refine ⟨p, hp, rfl, fun a x h1 h2 => ?_⟩
+    have := runFlow_obs (balObs_sound a x) _ _ _ hr
+    simp only [balObs] at this
+    rw [this]
+    have h1' : ¬ Addr.erc20Mod = x := fun e => h1 e.symm
+    have h2' : ¬ Addr.wfx = x := fun e => h2 e.symm
+    have hne : ∀ c, ¬ coinAsset p.denom = Asset.erc c := fun c => coinAsset_ne_erc _ c
+    have hne' : ∀ c, ¬ Asset.erc c = coinAsset p.denom := fun c => erc_ne_coinAsset _ c
+    by_cases ha1 : a = .erc p.contract <;> by_cases ha2 : a = coinAsset p.denom <;> by_cases hx1 : x = .user r <;>
+      by_cases hx2 : x = .user u <;> cases p.kind <;>
+      simp [convertERC20U, Obs.flowDelta, balObs, E, ha1, ha2, hx1, hx2, h1, h2, h1', h2', hne, hne', eq_comm] <;>
+      (try simp_all) <;> (try omega)
+
+/-- every flow of the unified model only names the users of the message, the erc20 module account and the WFX contract -/
+theorem stepU_ledger_flow (s s' : UState) (op : UOp) (h : stepU s op = .ok s') :
+    s'.L = s.L ∨ ∃ fl, runFlow fl s.L = .ok s'.L ∧
+      ∀ univ : List Addr, Addr.erc20Mod ∈ univ → Addr.wfx ∈ univ →
+        (match op with
+          | .convertCoin _ u r _ => Addr.user u ∈ univ ∧ Addr.user r ∈ univ
+          | .convertERC20 _ u r _ => Addr.user u ∈ univ ∧ Addr.user r ∈ univ
+          | .convertDenom _ u r _ _ => Addr.user u ∈ univ ∧ Addr.user r ∈ univ
+          | _ => True) → ∀ p ∈ fl, p.addrsIn univ := by
+  cases op with
+  | convertCoin d u r n =>
+    obtain ⟨p, _, hcase⟩ := stepU_convertCoin_ok s s' d u r n h
+    rcases hcase with ⟨_, rfl⟩ | ⟨_, L', hr, rfl⟩
+    · exact Or.inl rfl
+    · refine Or.inr ⟨_, hr, fun univ hE hW hu q hq => ?_⟩
+      generalize p.kind = k at hq
+      cases k <;> simp only [convertCoinU, List.mem_cons, List.not_mem_nil, or_false] at hq <;>
+        rcases hq with rfl | rfl | rfl <;> simp [Prim.addrsIn, E, hu.1, hu.2, hE, hW]
+  | convertERC20 ct u r n =>
+    obtain ⟨p, _, hcase⟩ := stepU_convertERC20_ok s s' ct u r n h
+    rcases hcase with ⟨_, rfl⟩ | ⟨_, L', hr, rfl⟩
+    · exact Or.inl rfl
+    · refine Or.inr ⟨_, hr, fun univ hE hW hu q hq => ?_⟩
+      generalize p.kind = k at hq
+      cases k <;> simp only [convertERC20U, List.mem_cons, List.not_mem_nil, or_false] at hq <;>
+        rcases hq with rfl | rfl | rfl <;> simp [Prim.addrsIn, E, hu.1, hu.2, hE, hW]
+  | convertDenom d u r n tgt =>
+    simp only [stepU] at h
+    split at h; · cases h
+    split at h; · cases h
+    split at h
+    · split at h <;> cases h
+    · simp only [UState.withLedger] at h
+      split at h
+      · rename_i L' hr
+        cases h
+        refine Or.inr ⟨_, hr, fun univ hE hW hu q hq => ?_⟩
+        simp only [convertDenomU, List.mem_append, List.mem_cons, List.not_mem_nil, or_false] at hq
+        rcases hq with ((rfl | hq) | rfl) | hq
+        · simp [Prim.addrsIn, E, hu.1, hE]
+        · rename_i k _ _ _ _ _
+          simp only [convertDenomMid] at hq
+          (repeat' split at hq) <;> simp only [List.mem_cons, List.not_mem_nil, or_false] at hq <;>
+            (try rcases hq with rfl | rfl) <;> (try subst hq) <;> simp_all [Prim.addrsIn, E]
+        · simp [Prim.addrsIn, E, hu.1, hE]
+        · split at hq
+          · cases hq
+          · simp only [List.mem_cons, List.not_mem_nil, or_false] at hq
+            rcases hq with rfl | rfl <;> simp [Prim.addrsIn, E, hu.1, hu.2, hE]
+      · cases h
+  | idx iop => obtain ⟨i, _, rfl⟩ := stepU_idx_ok h; exact Or.inl rfl
+  | setEnable b => simp only [stepU] at h; cases h; exact Or.inl rfl
+
+/-- **I_sum (unified)**: every message keeps "Σ balances = supply" of every coin denomination and every ERC-20
+contract, over any finite universe of accounts containing the message's users, the module account and the WFX contract -/
+theorem sum_preserved_unified (s s' : UState) (op : UOp) (h : stepU s op = .ok s')
+    (univ : List Addr) (hn : univ.Nodup) (hE : Addr.erc20Mod ∈ univ) (hW : Addr.wfx ∈ univ)
+    (hu : match op with
+          | .convertCoin _ u r _ => Addr.user u ∈ univ ∧ Addr.user r ∈ univ
+          | .convertERC20 _ u r _ => Addr.user u ∈ univ ∧ Addr.user r ∈ univ
+          | .convertDenom _ u r _ _ => Addr.user u ∈ univ ∧ Addr.user r ∈ univ
+          | _ => True)
+    (a : Asset) (hwf : s.L.WF univ a) : s'.L.WF univ a := by
+  rcases stepU_ledger_flow s s' op h with e | ⟨fl, hr, hin⟩
+  · rw [e]; exact hwf
+  · exact runFlow_WF univ hn fl _ _ hr (hin univ hE hW hu) a hwf
+
+end Exact
 
 /-! ### mixed transactions: the running StateDB's caches and keeper-level nested calls (Model/C08Cache.lean) -/
 
